@@ -7,11 +7,21 @@ composes them from `Field.diff` (model: `DFV.C04.diff`), component access
 Every intermediate field goes through the constructor path (`vdims` setter followed by
 the `vdim_mapping` setter), because that is where labels and mapping of the results are
 decided.  Also the `vdims` / `vdim_mapping` setters on an existing field (mapping
-maintenance when labels change).  Core Lean only.
+maintenance when labels change), and one quarter turn `Field.rotate90(ax1, ax2)` (`k = 1`,
+about the region centre, copy form: `Region.rotate90`, `Mesh.rotate90`, `np.rot90`, the
+quarter-turn matrix with its exact entries) as far as the commutation claim needs it.
+Core Lean only.
+
+The code-shaped layer (what the driver runs) comes first; the spec layer at the end holds
+the index-level quantities and predicates the theorems of `Props/C05.lean` are stated
+against (`D`, `sumTo`, `lineD`, `DimsOk`, `Plain`, `FullyValid`, `ExactMesh`, `SampledFrom`,
+`QuadAlong`, `quadP`, `MeshWf`, `IsRot90`, …).
 
 Not modelled: the `hasattr` test of the `vdims` setter (labels that collide with
 attribute names of `Field` are refused by the code; the model assumes labels are not
-such names), dtype, norm.
+such names), dtype, norm, the checks of the `subregions` setter when a mesh with subregions
+is rotated (their corners are rotated, nothing is re-validated), `rotate90` for `k ≠ 1`,
+with an explicit reference point or in place.
 -/
 namespace DFV.C05
 open DFV
